@@ -69,10 +69,10 @@ type backend struct {
 
 var backends = []backend{
 	{"z3-new", func(f string, t time.Duration, seed int) []string {
-		return []string{"z3-new", fmt.Sprintf("-T:%d", int(t.Seconds())+1), fmt.Sprintf("smt.random_seed=%d", seed), f}
+		return []string{"z3-new", fmt.Sprintf("-t:%d", t.Milliseconds()), fmt.Sprintf("-T:%d", int(t.Seconds())+1), fmt.Sprintf("smt.random_seed=%d", seed), f}
 	}},
 	{"z3", func(f string, t time.Duration, seed int) []string {
-		return []string{"z3", fmt.Sprintf("-T:%d", int(t.Seconds())+1), fmt.Sprintf("smt.random_seed=%d", seed), f}
+		return []string{"z3", fmt.Sprintf("-t:%d", t.Milliseconds()), fmt.Sprintf("-T:%d", int(t.Seconds())+1), fmt.Sprintf("smt.random_seed=%d", seed), f}
 	}},
 	{"cvc5", func(f string, t time.Duration, seed int) []string {
 		return []string{"cvc5", fmt.Sprintf("--tlimit=%d", t.Milliseconds()), fmt.Sprintf("--seed=%d", seed), f}
@@ -209,7 +209,7 @@ func (s *Solver) SolveAll(em *Emitter, obls []*Obligation) {
 				sum := sha256.Sum256([]byte(text))
 				file := filepath.Join(s.Dir, fmt.Sprintf("%x.smt2", sum[:8]))
 				os.WriteFile(file, []byte(text), 0o644)
-				st, out, secs := runBackend(context.Background(), backends[0], file, 2*time.Second, s.Seed)
+				st, out, secs := runBackend(context.Background(), backends[0], file, 1*time.Second, s.Seed)
 				ob.Result = &SolveResult{Status: st, Backend: "z3-new", Seconds: secs, Output: out, File: file, All: map[string]string{"z3-new": st}}
 				return
 			}
